@@ -269,11 +269,15 @@ def match_link_dest(string, offset):
 
 
 def match_link_title(string, offset):
+    dest_end = offset
     offset = shift_whitespace(string, offset)
     if offset == len(string):
         return None
     if string[offset] == ')':
         return offset, offset, ''
+    if offset == dest_end:
+        # a title must be separated from the destination by whitespace
+        return None
     if string[offset] == '"':
         closing = '"'
     elif string[offset] == "'":
